@@ -74,6 +74,13 @@ CLAIMS = {
             "edge of the exact compilation, that swallowed failures only feed metrics, and that decision() is Indeterminate "
             "for the non-certified variants. Soundness of the bounds themselves (residual mass, WMC) is numeric and not decided.",
             "MIR control dependence on normalised comparisons, cut-edge reachability, taint of swallowed errors"),
+    "C10": ("DESIGN.md §4 C10",
+            "Decides the shape of the per-firing transaction on the shared store for every schedule: one lock acquisition "
+            "covering evict, load, materialise and query (dominated by the acquisition, not reachable from the release), their "
+            "order, completeness of the evict/load loops before materialisation, bookkeeping of everything loaded or derived "
+            "for the next eviction, and that previous-firing state cannot delete current-firing content (defect fixed: the "
+            "loader untracks). The R2S operators' set algebra and cross-mode sequence equality are not decided.",
+            "MIR critical-section containment, T-ORDER reachability, T-PAIR within loop bodies, sibling impl checks by trait"),
 }
 
 NA = {
